@@ -44,6 +44,7 @@ extern void hxw_plan(const char *spec);
 extern void hxw_enter(void);
 extern void hxw_leave(void);
 extern size_t hxw_trace(char *out, size_t cap);
+extern void hxw_step(void);
 #define API_ENTER() hxw_enter()
 #define API_LEAVE() hxw_leave()
 #else
@@ -127,29 +128,51 @@ static void commit_line(void) {
 }
 
 /* ---- helpers -------------------------------------------------------------------------------- */
+/* unescape with a repetition form: \{N:text\} stands for text repeated N times (no nesting) */
 static char *unescape(const char *s, const char *end) {
-  char *o = malloc((size_t)(end - s) + 1), *p = o;
+  size_t cap = (size_t)(end - s) + 16, len = 0;
+  char *o = malloc(cap);
+#define PUT(c)                                                                                     \
+  do {                                                                                             \
+    if (len + 2 > cap) o = realloc(o, cap *= 2);                                                   \
+    o[len++] = (c);                                                                                \
+  } while (0)
   while (s < end) {
     if (*s == '\\' && s + 1 < end) {
       s++;
       switch (*s) {
-      case 'n': *p++ = '\n'; s++; break;
-      case 't': *p++ = '\t'; s++; break;
-      case 'r': *p++ = '\r'; s++; break;
-      case '\\': *p++ = '\\'; s++; break;
+      case 'n': PUT('\n'); s++; break;
+      case 't': PUT('\t'); s++; break;
+      case 'r': PUT('\r'); s++; break;
+      case '\\': PUT('\\'); s++; break;
       case 'x': {
         unsigned v = 0;
         sscanf(s + 1, "%2x", &v);
-        *p++ = (char)v;
+        PUT((char)v);
         s += 3;
         break;
       }
-      default: *p++ = *s++; break;
+      case '{': {
+        long n = strtol(s + 1, (char **)&s, 10);
+        const char *b = s + 1, *e = b;
+        while (e + 1 < end && !(e[0] == '\\' && e[1] == '}')) e++;
+        char *inner = unescape(b, e);
+        size_t il = strlen(inner);
+        for (long k = 0; k < n; k++)
+          for (size_t q = 0; q < il; q++) PUT(inner[q]);
+        free(inner);
+        s = e + 2 <= end ? e + 2 : end;
+        break;
       }
-    } else
-      *p++ = *s++;
+      default: PUT(*s); s++; break;
+      }
+    } else {
+      PUT(*s);
+      s++;
+    }
   }
-  *p = 0;
+#undef PUT
+  o[len] = 0;
   return o;
 }
 
@@ -345,6 +368,9 @@ static void run_history(char *s, char *e) {
     char save = *t;
     *t = 0;
     lputs("\t");
+#ifdef HEXEC_WRAP
+    hxw_step();
+#endif
     switch (op) {
     case 'c': do_create(arg); break;
     case 'i': do_create_internal(); break;
